@@ -116,20 +116,27 @@ def frame_inv(matches, start, seq, frame, direction, offset, minimum_length, rec
             and (s == -1 or (frame <= s and s < frame + 3 * _i)))
 
 
-@contract(f"{FILE}::scan_orfs", props=["C15"])
-class ScanOrfs:
+@spec
+def some_orf_of_exactly_the_minimum_length(seq, direction, offset, minimum_length, record_length):
+    """some in-frame start..stop stretch has exactly the minimum length (finding C15-F1: it is dropped)"""
+    return exists(range(0, 3), lambda frame: exists(range(0, codons(seq, frame)), lambda k:
+                  open_start(k, seq.upper(), frame) != -1 and is_stop(seq, frame + 3 * k)
+                  and frame + 3 * k + 3 - open_start(k, seq.upper(), frame) == minimum_length))
+
+
+class _ScanOrfsBase:
     """Any sequence length: the inner loop is cut by the invariant `matches represents found(k)`.
-    The three frames are the three iterations of the outer loop (unrolled)."""
-    params = {"seq": Str, "direction": OneOf(Const(1), Const(-1)), "offset": Int, "minimum_length": Int,
-              "record_length": Opt(Int)}
-    budget_s = 900
+    The three frames are the three iterations of the outer loop (unrolled). One contract per
+    strand x topology so that the configurations are verified in parallel."""
 
     def requires(seq, direction, offset, minimum_length, record_length):
         return offset >= 0 and (record_length is None or (record_length > 0 and len(seq.upper()) <= record_length))
 
     loops = {1: Loop(invariant=frame_inv, types={"matches": SeqOf(ORF_LOC), "start": Opt(Int), "i": Int, "codon": Str,
-                                            "end": Int, "loc_start": Int, "loc_end": Int})}
+                                                 "end": Int, "loc_start": Int, "loc_end": Int})}
     unroll = 3
+    budget_s = 600
+    known = {"C15-F1": some_orf_of_exactly_the_minimum_length}
     ensures = {
         "reports-exactly-the-orfs-of-the-three-frames": lambda seq, direction, offset, minimum_length, record_length, result:
             all_found(result, found(codons(seq, 2), seq.upper(), 2, direction, offset, minimum_length, record_length),
@@ -138,6 +145,23 @@ class ScanOrfs:
             forall(range(0, len(result)), lambda i: forall(range(0, len(result)), lambda j: implies(
                 i <= j, low_coordinate(result[i]) <= low_coordinate(result[j])))),
     }
+
+
+def _variant(name, direction, ring):
+    attrs = {k: v for k, v in _ScanOrfsBase.__dict__.items() if not k.startswith("__")}
+    attrs["__doc__"] = _ScanOrfsBase.__doc__
+    attrs["__module__"] = __name__
+    attrs["params"] = {"seq": Str, "direction": Const(direction), "offset": Int, "minimum_length": Int,
+                       "record_length": Int if ring else Const(None)}
+    attrs["variant"] = name != "ScanOrfsForwardLinear"
+    cls = type(name, (), attrs)
+    return contract(f"{FILE}::scan_orfs", props=["C15"])(cls)
+
+
+ScanOrfsForwardLinear = _variant("ScanOrfsForwardLinear", 1, False)
+ScanOrfsReverseLinear = _variant("ScanOrfsReverseLinear", -1, False)
+ScanOrfsForwardRing = _variant("ScanOrfsForwardRing", 1, True)
+ScanOrfsReverseRing = _variant("ScanOrfsReverseRing", -1, True)
 
 
 @spec
